@@ -36,7 +36,9 @@ type Report struct {
 	Obls   []Obligation
 	Floors map[string]int // rule -> minimum number of obligations
 	Notes  []string
-	seen   map[string]bool
+	// SelfTest is filled by the thorough tier (variant matrix outcome).
+	SelfTest map[string]interface{}
+	seen     map[string]bool
 }
 
 func NewReport() *Report {
@@ -213,6 +215,9 @@ func Finish(prop *Property, tier string, seed int, r *Report, p *Prog, known *Kn
 	}
 	for k, v := range extra {
 		cov[k] = v
+	}
+	if r.SelfTest != nil {
+		cov["self_test"] = r.SelfTest
 	}
 	ev := map[string]interface{}{
 		"property_id": prop.ID,
